@@ -536,3 +536,164 @@ Proof.
     destruct (steps code n st1) as [[t1 st2]|] eqn:E; [|discriminate].
     specialize (IH st1 _ f E ltac:(lia)). destruct (run code f st1). simpl in *. exact IH.
 Qed.
+
+(* ------------------------------------------------------------------ GOSUB / RETURN / GOTO / ON *)
+
+Section StepFacts.
+Variable code : list stmt.
+
+Lemma goto_step st n j : nth_error code (pc st) = Some (SGoto n) -> find_line code n = Some j ->
+  step code st = Go (set_pc st j) [].
+Proof. intros H Hj. rewrite (step_at code st _ H). unfold jump. rewrite Hj. reflexivity. Qed.
+
+(* GOSUB records the calling statement and jumps ... *)
+Lemma gosub_step st n j : nth_error code (pc st) = Some (SGosub n) -> find_line code n = Some j ->
+  step code st = Go (set_pc (set_gosubs st (pc st :: gosubs st)) j) [].
+Proof. intros H Hj. rewrite (step_at code st _ H). unfold jump. rewrite Hj. reflexivity. Qed.
+
+(* ... and RETURN takes the latest record off and goes on after that statement *)
+Lemma return_step st r rest : nth_error code (pc st) = Some (SReturn None) -> gosubs st = r :: rest ->
+  step code st = Go (set_pc (set_gosubs st rest) (S r)) [].
+Proof. intros H Hg. rewrite (step_at code st _ H). rewrite Hg. reflexivity. Qed.
+
+Lemma return_without_gosub st tgt : nth_error code (pc st) = Some (SReturn tgt) -> gosubs st = [] ->
+  step code st = trap code st (pc st) flow_E_RETURN_WITHOUT_GOSUB (pc st).
+Proof. intros H Hg. rewrite (step_at code st _ H). rewrite Hg. reflexivity. Qed.
+
+Section On.
+Variables (st : state) (e : expr) (gosub : bool) (ns : list Z) (z : Z).
+Hypothesis Hat : nth_error code (pc st) = Some (SOn e gosub ns).
+Hypothesis Hev : eval (ds st) e = EV z.
+
+(* ON z GOTO/GOSUB n1, ..., nk: the z-th target for 1 <= z <= k *)
+Lemma on_select j : 1 <= z <= Z.of_nat (length ns) -> z <= 255 ->
+  find_line code (nth (Z.to_nat (z - 1)) ns 0) = Some j ->
+  step code st = Go (set_pc (if gosub then set_gosubs st (pc st :: gosubs st) else st) j) [].
+Proof.
+  intros Hz Hz255 Hj. rewrite (step_at code st _ Hat). cbv zeta. rewrite Hev.
+  unfold with_int, with_val. assert (E : in16 z = true) by (unfold in16; lia). rewrite E.
+  destruct on_range as [-> ->].
+  assert (E1 : negb ((0 <=? z) && (z <=? 255)) = false) by lia. rewrite E1.
+  assert (E2 : (1 <=? z) && (z <=? Z.of_nat (length ns)) = true) by lia. rewrite E2.
+  unfold jump. rewrite Hj. reflexivity.
+Qed.
+
+(* falls through to the next statement for 0 and for values beyond the list (up to 255) *)
+Lemma on_fall_through : z = 0 \/ Z.of_nat (length ns) < z <= 255 ->
+  step code st = Go (set_pc st (S (pc st))) [].
+Proof.
+  intros Hz. rewrite (step_at code st _ Hat). cbv zeta. rewrite Hev.
+  unfold with_int, with_val. assert (E : in16 z = true) by (unfold in16; lia). rewrite E.
+  destruct on_range as [-> ->].
+  assert (E1 : negb ((0 <=? z) && (z <=? 255)) = false) by lia. rewrite E1.
+  assert (E2 : (1 <=? z) && (z <=? Z.of_nat (length ns)) = false) by lia. rewrite E2.
+  reflexivity.
+Qed.
+
+(* Illegal function call outside 0..255 *)
+Lemma on_ifc : in16 z = true -> z < 0 \/ z > 255 ->
+  step code st = trap code st (pc st) flow_E_ILLEGAL_FUNCTION_CALL (pc st).
+Proof.
+  intros E Hz. rewrite (step_at code st _ Hat). cbv zeta. rewrite Hev.
+  unfold with_int, with_val. rewrite E.
+  destruct on_range as [-> ->].
+  assert (E1 : negb ((0 <=? z) && (z <=? 255)) = true) by lia. rewrite E1. reflexivity.
+Qed.
+
+(* Overflow for values that are not 16-bit integers *)
+Lemma on_overflow : in16 z = false ->
+  step code st = trap code st (pc st) flow_E_OVERFLOW (pc st).
+Proof.
+  intros E. rewrite (step_at code st _ Hat). cbv zeta. rewrite Hev.
+  unfold with_int, with_val. rewrite E. reflexivity.
+Qed.
+End On.
+
+(* ------------------------------------------------------------------ mismatched NEXT / WEND / FOR / WHILE *)
+
+(* a bare NEXT raises NEXT without FOR exactly when no FOR record points at it *)
+Lemma next_without_for st st' c : next_vars st (pc st) 0 [None] = IErr st' c ->
+  (c = flow_E_NEXT_WITHOUT_FOR <-> find_for (fors st) (pc st) 0 = None).
+Proof.
+  cbn [next_vars]. unfold iterate.
+  destruct (find_for (fors st) (pc st) 0) as [[f below]|].
+  - simpl. destruct (negb (in16 _)).
+    + intros H. inversion H; subst. split; intros E; discriminate.
+    + destruct (if flow_next_dir _ then _ else _); intros H; discriminate.
+  - intros H. inversion H; subst. split; reflexivity.
+Qed.
+
+Lemma next_step_without_for st vs : nth_error code (pc st) = Some (SNext vs) ->
+  find_for (fors st) (pc st) 0 = None ->
+  step code st = trap code st (pc st) flow_E_NEXT_WITHOUT_FOR (pc st).
+Proof.
+  intros H Hf. rewrite (step_at code st _ H). cbv zeta.
+  assert (E : next_vars st (pc st) 0 (next_names vs) = IErr st flow_E_NEXT_WITHOUT_FOR).
+  { destruct vs as [|v vs]; cbn [next_names map next_vars]; unfold iterate; rewrite Hf; reflexivity. }
+  rewrite E. reflexivity.
+Qed.
+
+(* NEXT v with the innermost matching record belonging to another variable *)
+Lemma next_step_wrong_var st v vs f below : nth_error code (pc st) = Some (SNext (v :: vs)) ->
+  find_for (fors st) (pc st) 0 = Some (f, below) -> v <> f_var f ->
+  step code st = trap code st (pc st) flow_E_NEXT_WITHOUT_FOR (pc st).
+Proof.
+  intros H Hf Hv. rewrite (step_at code st _ H). cbv zeta.
+  cbn [next_names map next_vars]. unfold iterate. rewrite Hf.
+  assert (E : Nat.eqb v (f_var f) = false) by (apply Nat.eqb_neq; exact Hv).
+  rewrite E. reflexivity.
+Qed.
+
+(* FOR whose bounds evaluate, with no NEXT left in the text *)
+Lemma for_step_without_next st v a b s va vb vs : nth_error code (pc st) = Some (SFor v a b s) ->
+  eval (ds st) a = EV va -> eval (ds st) b = EV vb -> eval (ds st) s = EV vs ->
+  in16 va = true -> in16 vb = true -> in16 vs = true ->
+  scan_next (skipn (S (pc st)) code) (S (pc st)) 0 = None ->
+  step code st = trap code st (pc st) flow_E_FOR_WITHOUT_NEXT (pc st).
+Proof.
+  intros H Ea Eb Es Ha Hb Hs Hscan. rewrite (step_at code st _ H). cbv zeta.
+  rewrite Ea, Eb, Es. unfold with_int, with_val. rewrite Ha, Hb, Hs, Hscan. reflexivity.
+Qed.
+
+Lemma while_step_without_wend st c : nth_error code (pc st) = Some (SWhile c) ->
+  scan_wend (skipn (S (pc st)) code) (S (pc st)) 0 = None ->
+  step code st = trap code st (pc st) flow_E_WHILE_WITHOUT_WEND (pc st).
+Proof. intros H Hscan. rewrite (step_at code st _ H). cbv zeta. rewrite Hscan. reflexivity. Qed.
+
+(* WEND: no WHILE record for this WEND anywhere on the stack *)
+Lemma pop_to_wend_none ws j : pop_to_wend ws j = None <-> (forall w e, In (w, e) ws -> e <> j).
+Proof.
+  induction ws as [|[w e] ws IH]; simpl.
+  - split; [intros _ w e [] | reflexivity].
+  - destruct (Nat.eqb e j) eqn:E.
+    + split; [discriminate|]. intros H. apply Nat.eqb_eq in E. exfalso. apply (H w e); auto.
+    + rewrite IH. apply Nat.eqb_neq in E. split.
+      * intros H w' e' [H1|H1]; [inversion H1; subst; exact E | eapply H; eauto].
+      * intros H w' e' H1. apply (H w' e'). right. exact H1.
+Qed.
+
+Lemma wend_step_without_while st : nth_error code (pc st) = Some SWend ->
+  (forall w e, In (w, e) (whiles st) -> e <> pc st) ->
+  step code st = trap code (set_whiles st []) (pc st) flow_E_WEND_WITHOUT_WHILE (pc st).
+Proof.
+  intros H Hn. rewrite (step_at code st _ H). cbv zeta.
+  apply pop_to_wend_none in Hn. rewrite Hn. reflexivity.
+Qed.
+
+End StepFacts.
+
+(* FOR .. STEP 0 with start <= end: no fuel is enough *)
+Lemma for_step0_diverges code i v a b s vs :
+  nth_error code i = Some (SFor v (EConst a) (EConst b) (EConst s)) ->
+  nth_error code (S i) = Some (SPrint (EVar v)) ->
+  nth_error code (S (S i)) = Some (SNext vs) ->
+  vs = nil \/ vs = v :: nil ->
+  in16 a = true -> in16 b = true -> in16 s = true ->
+  forall st, s = 0 -> pc st = i -> a <= b ->
+  forall fuel, snd (run code fuel st) = OutOfFuel.
+Proof.
+  intros H1 H2 H3 H4 H5 H6 H7 st H8 H9 H10 fuel.
+  eapply steps_no_halt with (n := (1 + 2 * fuel)%nat).
+  - eapply for_step0_forever; eauto.
+  - lia.
+Qed.
